@@ -25,7 +25,7 @@ PROPERTY = 'C09'
 TECHNIQUE = 'symbolic execution of the real feature calculators / PIT forward / export on z3-real channel masks and inputs; alive features of the tensor reaching each layer decided by satisfiability queries and compared with calculator, summary and exported sizes'
 FUNCTIONS_ENCODED = ['add_features_calculator/associate_input_features (run natively at conversion)', 'ConstFeaturesCalculator/ModAttrFeaturesCalculator/FlattenFeaturesCalculator/ConcatFeaturesCalculator .features/.features_mask/.register',
                      'register_input_features', 'build_shared_features_map', 'PITConv1d/PITConv2d/PITLinear.forward/in_features_opt/export', 'PIT.summary/export']
-BOUNDS = {'quick': 'K1 origin pairs {s,f,i}^2, K3 (nested DenseNet-style concat, fixed/searchable leaves), H1 (branches flattened at different resolutions, then concatenated), A1, K2, F1 (3 flatten variants), Q1, W1 (1D, 2D), X1 (excluded by name / by type), D2; <= 3 channels per tensor, <= 2 timesteps',
+BOUNDS = {'quick': 'K1 origin pairs {s,f,i}^2, K3 (nested DenseNet-style concat, fixed/searchable leaves), H1 (branches flattened at different resolutions, then concatenated), A1, K2, F1 (3 flatten variants), Q1, W1 (1D, 2D), X1 (excluded by name / by type), D2; <= 3 channels per tensor, <= 2 timesteps; W2 (grouped conv with channel multiplier, excluded), A2 (residual sum after flatten), 1D and 2D',
           'thorough': 'same + 3-way concats (all 27 origin triples), A1 depthwise, W1 chains of 3, fold_bn variants, R2/R3/R4 repeated layers'}
 OUTSIDE = ['architectures outside the grammar', 'time / dilation masks (left open here, see C01)', 'a feature that is alive only for weight values other than the generic assignment (weights are concrete, pairwise distinct, non-zero)']
 ASSUMPTIONS = ['positive dyadic weights/biases/BatchNorm affine and non-negative inputs: an unmasked feature is positive for some input, a masked one is identically 0 (ReLU cannot kill an unmasked feature for every input)', 'receptive-field / dilation masks stay at their initial open value']
